@@ -143,6 +143,7 @@ def chainDeep (c : List Prim) : Bool := c.any Prim.deep
 /-! ### Value-carrying positions and the table -/
 
 /-- Where a value travels in one API call.  `arg → store`, `store → caller`, `store → store`,
+    `arg → cache` (a `Cursor` keeps its own copy of the query), `cache → cache` (`clone()`),
     `store → cache` (a `Cursor` computes its results), `cache → caller` (it hands them out),
     `caller → caller`. -/
 inductive Pos where
@@ -165,6 +166,12 @@ inductive Pos where
   | upsertInsert   -- the assembled upsert document on its way into the store
   -- store → store
   | rollbackSnapshot -- the before-image a failed single-document update puts back
+  -- argument → cache: the query a `Cursor` keeps (`Cursor.__init__`)
+  | cursorSpec     -- the filter of `find`, kept as `Cursor._spec`
+  | cursorProj     -- the projection of `find` (dict or list), kept as `Cursor._projection`
+  -- cache → cache: what `Cursor.clone()` takes from the cursor it clones
+  | cloneSpec      -- its `_spec`
+  | cloneProj      -- its `_projection`
   -- store → cache: what `Collection._get_dataset` yields, kept by the `Cursor` (`_results`)
   | findDoc        -- a document read without projection
   | projField      -- a field copied by a projection (`_project_by_spec`)
@@ -179,17 +186,23 @@ inductive Pos where
   | aggDoc         -- a document entering a pipeline (`$match`, `$sort`, `$skip`, `$limit`, `$group`, `$project`)
   | aggAddFields   -- a document leaving `$addFields` / `$set`
   | aggUnwind      -- a document leaving `$unwind`
+  | aggAddItemVal  -- a value of the document that `$addFields` / `$set` puts into an item of an
+                   -- array its dotted name goes through (`_add_field`)
+  | aggLookup      -- a foreign document `$lookup` / `$graphLookup` puts into an output document
   | insertedId     -- `InsertOneResult.inserted_id` / `InsertManyResult.inserted_ids[i]`
   | upsertedId     -- `UpdateResult.upserted_id`
   -- caller → caller
   | aggLiteral     -- a constant of the pipeline appearing in the output
+  | aggAddItemLit  -- … put by `$addFields` / `$set` into an item of an array its dotted name goes
+                   -- through
   deriving DecidableEq, Repr, Inhabited
 
 def Pos.all : List Pos :=
   [.insertArg, .insertDoc, .updTemp, .setValDoc, .setValList, .setOnInsertVal, .minMaxVal, .pushVal, .pushEach,
    .addToSetVal, .addToSetEach, .positionalSet, .replaceVal, .upsertSeed, .upsertId, .upsertInsert,
-   .rollbackSnapshot, .findDoc, .projField, .projId, .projOpStored, .projOpCopied, .cursorOut,
-   .distinctVal, .aggDoc, .aggAddFields, .aggUnwind, .insertedId, .upsertedId, .aggLiteral]
+   .rollbackSnapshot, .cursorSpec, .cursorProj, .cloneSpec, .cloneProj, .findDoc, .projField, .projId,
+   .projOpStored, .projOpCopied, .cursorOut, .distinctVal, .aggDoc, .aggAddFields, .aggUnwind,
+   .aggAddItemVal, .aggLookup, .insertedId, .upsertedId, .aggLiteral, .aggAddItemLit]
 
 def Pos.name : Pos → String
   | .insertArg => "insertArg" | .insertDoc => "insertDoc" | .updTemp => "updTemp" | .setValDoc => "setValDoc"
@@ -198,6 +211,9 @@ def Pos.name : Pos → String
   | .addToSetEach => "addToSetEach" | .positionalSet => "positionalSet"
   | .replaceVal => "replaceVal" | .upsertSeed => "upsertSeed" | .upsertId => "upsertId"
   | .upsertInsert => "upsertInsert" | .rollbackSnapshot => "rollbackSnapshot"
+  | .cursorSpec => "cursorSpec" | .cursorProj => "cursorProj" | .cloneSpec => "cloneSpec"
+  | .cloneProj => "cloneProj" | .aggAddItemVal => "aggAddItemVal" | .aggLookup => "aggLookup"
+  | .aggAddItemLit => "aggAddItemLit"
   | .findDoc => "findDoc" | .projField => "projField" | .projId => "projId"
   | .projOpStored => "projOpStored" | .projOpCopied => "projOpCopied" | .cursorOut => "cursorOut"
   | .distinctVal => "distinctVal" | .aggDoc => "aggDoc" | .aggAddFields => "aggAddFields"
@@ -206,7 +222,8 @@ def Pos.name : Pos → String
 
 /-- where the value at a position comes from and where it goes -/
 inductive Flow where
-  | argToStore | storeToStore | storeToCache | cacheToCaller | storeToCaller | callerToCaller
+  | argToStore | storeToStore | argToCache | cacheToCache | storeToCache | cacheToCaller
+  | storeToCaller | callerToCaller
   deriving DecidableEq, Repr
 
 def Pos.flow : Pos → Flow
@@ -214,14 +231,21 @@ def Pos.flow : Pos → Flow
   | .pushVal | .pushEach | .addToSetVal | .addToSetEach | .positionalSet | .replaceVal | .upsertSeed
   | .upsertId | .upsertInsert => .argToStore
   | .rollbackSnapshot => .storeToStore
+  | .cursorSpec | .cursorProj => .argToCache
+  | .cloneSpec | .cloneProj => .cacheToCache
   | .findDoc | .projField | .projId | .projOpStored | .projOpCopied => .storeToCache
   | .cursorOut | .distinctVal => .cacheToCaller
-  | .aggDoc | .aggAddFields | .aggUnwind | .insertedId | .upsertedId => .storeToCaller
-  | .aggLiteral => .callerToCaller
+  | .aggDoc | .aggAddFields | .aggUnwind | .aggAddItemVal | .aggLookup | .insertedId
+  | .upsertedId => .storeToCaller
+  | .aggLiteral | .aggAddItemLit => .callerToCaller
 
 /-- A copy discipline: the primitives applied at each position. -/
 structure Table where
   disc : Pos → List Prim
+
+/-- what a `tz_aware` client does once more to everything it reads:
+    `helpers.make_datetime_timezone_aware_in_document` rebuilds every dict and list -/
+def tzRebuild (tzAware : Bool) : List Prim := if tzAware then [.rebuild] else []
 
 /-- **The table**, read off /repo (mongomock/collection.py unless said otherwise).
 
@@ -241,26 +265,44 @@ structure Table where
       `doc_copy['_id'] = _copy_field(doc['_id'], container)`; 1114
       `doc_copy[field] = _copy_field(doc[field], dict)`, then 1147 a slice / 1160 `[item]`: a new
       list of the elements of that copy.
-    * EVERY read goes through a `Cursor`: `Cursor._compute_results` 2052-2070 computes
-      `list(self._factory())` once and keeps it (`self._results`): the copies listed above land in
-      the cursor's CACHE, not with the caller.  `__next__` 2087 and `__getitem__(int)` 2186 hand
-      out `_copy_field(cached, dict)` (`cursorOut`; since the fix "a cursor hands out a copy of its
+    * a query (`find`, `find_one`, `find_one_and_*`, `distinct`) goes through a `Cursor`, which
+      KEEPS ITS OWN COPY OF THE QUERY: `Cursor.__init__` 2040 `spec = patch_datetime…(spec)`
+      (`cursorSpec`), 2044 `projection = copy.deepcopy(projection)` (`cursorProj`; since the fix "a
+      cursor copies the projection it is given" b829c96 — before it the caller's dict was kept and
+      read when the results were computed, so editing it after `find` returned changed what the
+      cursor gave).  `clone()` 2082-2087 builds a new `Cursor` from the kept `_spec` /
+      `_projection`, which copies them again (`cloneSpec`, `cloneProj`).
+    * `Cursor._compute_results` 2056-2066 computes `list(self._factory())` once and keeps it
+      (`self._results`): the copies listed above land in the cursor's CACHE, not with the caller;
+      on a `tz_aware` client each is rebuilt once more (2063
+      `make_datetime_timezone_aware_in_document(x)`).  `__next__` and `__getitem__(int)` hand out
+      `_copy_field(cached, dict)` (`cursorOut`; since the fix "a cursor hands out a copy of its
       cached result each time" b973460 — before it the cached objects themselves went out, and a
-      rewind / an index showed the caller's edits).  `find_one` 1408 is `next(self.find(…))`,
+      rewind / an index showed the caller's edits).  `find_one` is `next(self.find(…))`,
       `find_one_and_*` read through `find_one`.
-    * `distinct` 1884 `self.find(filter).distinct(key)`; `Cursor.distinct` 2142-2153 walks the
-      cache, wraps an embedded document in `hashdict(value)` (a new dict around the same children)
-      and returns `_copy_field(v, dict)` (b973460; it was `dict(v)`, sharing nested lists with the
-      cache).
-    * `aggregate` 1964 rebuilds the pipeline (`patch_datetime_awareness_in_document`, d1da933: the
-      caller's pipeline object is never the one the stages see), 1967 `[doc for doc in
-      self.find()]` (cache, then the hand-out copy; the cursor is dropped); aggregate.py 1755
-      `dict(doc)`, 1581/1591 `copy.deepcopy(doc)` (and the unwound item is taken out of that copy,
-      0383ef2); 539 `$literal`: `copy.deepcopy(value)`; 383-386 an array constant is evaluated item
-      by item into new lists / documents (fce7e55; it was `copy.deepcopy`, aab0261).
+    * `distinct` is `self.find(filter).distinct(key)`; `Cursor.distinct` walks the cache, wraps an
+      embedded document in `hashdict(value)` (a new dict around the same children) and returns
+      `_copy_field(v, dict)` (b973460; it was `dict(v)`, sharing nested lists with the cache).
+    * `aggregate` 1967 rebuilds the pipeline (`patch_datetime_awareness_in_document`, d1da933: the
+      caller's pipeline object is never the one the stages see), 1968 `in_collection =
+      list(self._get_dataset({}, None, None, dict))` — ONE copy per stored document and no
+      `Cursor` (e05c961; it was `[doc for doc in self.find()]`: the cache and the hand-out copy) —
+      and, on a `tz_aware` client only, 1970-1972 rebuilds all results once more
+      (`make_datetime_timezone_aware_in_document(list(results))`).  aggregate.py 1794
+      `dict(doc)` (`$addFields`), 1620/1630 `copy.deepcopy(doc)` (`$unwind`; the unwound item is
+      taken out of that copy, 0383ef2); 566 `$literal`: `copy.deepcopy(value)`; 413 an array
+      constant is evaluated item by item into new lists / documents (fce7e55).
+    * `$addFields` / `$set` with a dotted name, `_add_field` 1806-1820 (1451329): the documents on
+      the path are shallow copies, the computed value itself is placed at the end of the path —
+      but where the path goes through an ARRAY every item gets `copy.deepcopy(new_value)` 1817
+      (`aggAddItemVal` for a value of the document, `aggAddItemLit` for a constant of the
+      pipeline; nested arrays: once more per level, which adds nothing for identity).
+    * `$lookup` 1351-1352 / `$graphLookup` 1424: the foreign documents come out of
+      `foreign_collection.find(…)` (cache, then the hand-out copy) and each is rebuilt once more
+      (`patch_datetime_awareness_in_document`, e05c961).
     * 548 `return _copy_field(data['_id'], dict)` — `inserted_id`, `inserted_ids` and (934, 961)
       `upserted_id` are copies of the stored `_id`. -/
-def copyDiscipline : Table where
+def disciplineFor (tzAware : Bool) : Table where
   disc
     | .insertArg => [.noCopy]
     | .insertDoc => [.rebuild]
@@ -279,19 +321,29 @@ def copyDiscipline : Table where
     | .upsertId => [.noCopy]
     | .upsertInsert => [.rebuild]
     | .rollbackSnapshot => [.deepcopy]
-    | .findDoc => [.copyField]
-    | .projField => [.copyField]
-    | .projId => [.copyField]
-    | .projOpStored => [.copyField]
-    | .projOpCopied => [.copyField]
+    | .cursorSpec => [.rebuild]
+    | .cursorProj => [.deepcopy]   -- was noCopy: cursor-projection-by-reference, fixed (b829c96)
+    | .cloneSpec => [.rebuild]
+    | .cloneProj => [.deepcopy]
+    | .findDoc => .copyField :: tzRebuild tzAware
+    | .projField => .copyField :: tzRebuild tzAware
+    | .projId => .copyField :: tzRebuild tzAware
+    | .projOpStored => .copyField :: tzRebuild tzAware
+    | .projOpCopied => .copyField :: tzRebuild tzAware
     | .cursorOut => [.copyField]   -- was noCopy: cursor-cache-alias, fixed (b973460)
     | .distinctVal => [.shallow, .copyField]
-    | .aggDoc => [.copyField, .copyField]
-    | .aggAddFields => [.copyField, .copyField, .shallow]
-    | .aggUnwind => [.copyField, .copyField, .deepcopy]
+    | .aggDoc => .copyField :: tzRebuild tzAware
+    | .aggAddFields => [.copyField, .shallow] ++ tzRebuild tzAware
+    | .aggUnwind => [.copyField, .deepcopy] ++ tzRebuild tzAware
+    | .aggAddItemVal => [.copyField, .deepcopy] ++ tzRebuild tzAware
+    | .aggLookup => (.copyField :: tzRebuild tzAware) ++ [.copyField, .rebuild] ++ tzRebuild tzAware
     | .insertedId => [.copyField]
     | .upsertedId => [.copyField]
-    | .aggLiteral => [.rebuild, .deepcopy]   -- was noCopy: agg-literal-alias, fixed (aab0261); rebuild: d1da933
+    | .aggLiteral => [.rebuild, .deepcopy] ++ tzRebuild tzAware   -- was noCopy: agg-literal-alias, fixed (aab0261); rebuild: d1da933
+    | .aggAddItemLit => [.rebuild, .deepcopy, .deepcopy] ++ tzRebuild tzAware
+
+/-- the table of a client that reads naive datetimes (the default) -/
+def copyDiscipline : Table := disciplineFor false
 
 /-- the positions at which a table does not copy -/
 def Table.aliasing (T : Table) : List Pos := Pos.all.filter (fun p => !chainDeep (T.disc p))
@@ -300,8 +352,9 @@ def Table.aliasing (T : Table) : List Pos := Pos.all.filter (fun p => !chainDeep
 
 /-- What is stored (one tree per document), what the caller holds (every argument ever passed and
     every result ever returned), what the caller's cursors keep (`Cursor._results`: one tree per
-    cached result, all cursors one after the other; the caller holds the cursors, not these
-    objects) and the next unused identity. -/
+    cached result, and their copies of the query, `Cursor._spec` / `_projection`; all cursors one
+    after the other; the caller holds the cursors, not these objects) and the next unused
+    identity. -/
 structure World where
   store : List HVal
   held : List HVal
@@ -633,9 +686,11 @@ def updateRows : List Pos :=
 def replaceRows : List Pos := [.updTemp, .replaceVal, .rollbackSnapshot]
 def upsertRows : List Pos := [.setOnInsertVal, .upsertSeed, .upsertId, .upsertInsert, .upsertedId]
 def projRows : List Pos := [.findDoc, .projField, .projId, .projOpStored, .projOpCopied]
-/-- a read hands out what the cursor it made has cached -/
-def readRows : List Pos := [.findDoc, .cursorOut]
-def projReadRows : List Pos := projRows ++ [.cursorOut]
+/-- a read makes a cursor, which keeps its copy of the query, and hands out what it has cached -/
+def readRows : List Pos := [.cursorSpec, .findDoc, .cursorOut]
+def projReadRows : List Pos := [.cursorSpec, .cursorProj] ++ projRows ++ [.cursorOut]
+/-- a cursor the caller keeps: a `clone()` copies the query again -/
+def cursorRows : List Pos := [.cloneSpec, .cloneProj] ++ projRows
 
 /-- the positions an operation can use -/
 def Op.rows : Op → List Pos
@@ -652,10 +707,11 @@ def Op.rows : Op → List Pos
   | .findOneAndDelete => readRows ++ [.updTemp]
   | .findOneAndProjected => projReadRows ++ updateRows ++ replaceRows
   | .findOneAndUpsert => readRows ++ (updateRows ++ replaceRows ++ upsertRows)
-  | .distinct => [.findDoc, .distinctVal]
-  | .aggregate => [.aggDoc, .aggAddFields, .aggUnwind, .aggLiteral]
-  | .cursorNext | .cursorIndex => projReadRows
-  | .cursorDistinct => projRows ++ [.distinctVal]
+  | .distinct => [.cursorSpec, .findDoc, .distinctVal]
+  | .aggregate => [.aggDoc, .aggAddFields, .aggUnwind, .aggAddItemVal, .aggLookup, .aggLiteral,
+                   .aggAddItemLit]
+  | .cursorNext | .cursorIndex => cursorRows ++ [.cursorOut]
+  | .cursorDistinct => cursorRows ++ [.distinctVal]
 
 /-- positions whose value lands directly in the store / with the caller (the others feed an
     assembly that goes through a further position: the temporaries of an update, the seed of an
@@ -688,8 +744,8 @@ def argEffect : Op → ArgRole → ArgFx
 
 def Src.okFor : Src → Flow → Bool
   | .store .., .storeToCaller | .store .., .storeToStore | .store .., .storeToCache => true
-  | .cache .., .cacheToCaller => true
-  | .held .., .callerToCaller | .held .., .argToStore => true
+  | .cache .., .cacheToCaller | .cache .., .cacheToCache => true
+  | .held .., .callerToCaller | .held .., .argToStore | .held .., .argToCache => true
   | .temp .., .argToStore => true
   | _, _ => false
 
